@@ -169,7 +169,7 @@ static std::vector<ExprCat> expr_catalogue() {
 
 struct C15 : Profile {
   const char* id() const override { return "C15"; }
-  long budget(const std::string& tier) const override { return tier == "thorough" ? 150000 : 5000; }
+  long budget(const std::string& tier) const override { return tier == "thorough" ? 150000 : 8000; }
   bool fork_per_run() const override { return true; }
   std::string rule() const override {
     return "plan = sequence of up to 40 C API calls drawn from a handle state machine (contexts, clones, symbols, caller-owned values of every scalar type incl. typed "
